@@ -157,6 +157,20 @@ fn inner(case: &C20Case, o: &mut Outcome) -> Result<(), (String, String)> {
                     }
                 }
             }
+            // chrono's leap-second representation (second 59 with nanoseconds >= 1e9): whether the
+            // leap second counts as part of second 59 or of the following second is a matter of
+            // convention, so either answer is accepted - but nothing else, and no panic
+            if secs.rem_euclid(60) == 59 {
+                if let chrono::LocalResult::Single(dt) = chrono::Utc.timestamp_opt(*secs, 1_000_000_000 + *nanos) {
+                    o.label("leap-second");
+                    let allowed = [want, expected(*secs as i128 + 1)];
+                    match conv(dt) {
+                        Err(p) => return Err(("panic".into(), format!("leap second after {secs}s: {p}"))),
+                        Ok(g) if allowed.contains(&g) => {}
+                        Ok(g) => return Err(("wrong-conversion".into(), format!("leap second after {secs}s (+{nanos}ns): got {g:?}, expected one of {allowed:?}"))),
+                    }
+                }
+            }
             if let chrono::LocalResult::Single(dt) = chrono::Utc.timestamp_opt(*secs, *nanos) {
                 cmp_result(&format!("DateTime<Utc>({secs}s+{nanos}ns)"), conv(dt), want)?;
                 if let Some(tz) = chrono::FixedOffset::east_opt(*tz_offset) {
